@@ -843,6 +843,102 @@ def rule6(ctx, rep):
                 o2 = Cnt().run(g.node, 0)
                 ex2 = o2.normal | o2.ret
                 r.check(ex2 == {1}, f'{g.qname}:continuation-delivered', where(g), f'self.{attr}() called exactly once on every normal path', f'{g.qname} can return after calling the archive continuation {sorted(ex2)} times: with 0 the FSM never leaves archiving')
+        # the caller's side (added after seeded change C10-10: FSM._archive handed db.archive a callback that only logs and
+        # chained _archive_done to the thread's Deferred instead; the PostgreSQL back end returns as soon as pg_dump is
+        # spawned, so the machine left archiving - and accepted update / submit - while the dump was still running)
+        completion = prog.funcs.get(FSM + '._archive_done')
+        if completion is None:
+            cands = [g_ for g_ in prog.funcs.values() if g_.cls is not None and g_.cls.qname == FSM and any(
+                isinstance(a_, ast.Assign) and any(isinstance(t_, ast.Attribute) and prog.resolve_in(t_, g_) == 'dawgie.pl.farm.ARCHIVE' for t_ in a_.targets) and isinstance(a_.value, ast.Constant) and a_.value.value is False
+                for a_ in g_.own_nodes())]
+            completion = cands[0] if len(cands) == 1 else None
+        sites = []
+        for g_ in prog.funcs.values():
+            if g_.cls is None or g_.cls.qname != FSM:
+                continue
+            for c_ in g_.calls():
+                if (prog.callee(c_, g_) or '') == 'dawgie.db.archive':
+                    sites.append((g_, c_))
+        r.instance()
+        if completion is None or not sites:
+            r.fail(f'{FSM}:archive-continuation', f'pl/state.py:1', 'the FSM no longer calls dawgie.db.archive, or its completion step (_archive_done) was not found')
+        for g_, c_ in sites:
+            arg = c_.args[0] if c_.args else next((k.value for k in c_.keywords), None)
+            reaches = False
+            if arg is not None and completion is not None:
+                if isinstance(arg, ast.Attribute) and isinstance(arg.value, ast.Name) and arg.value.id == 'self' and arg.attr == completion.name:
+                    reaches = True
+                elif isinstance(arg, ast.Lambda):
+                    reaches = any(isinstance(x, ast.Call) and isinstance(x.func, ast.Attribute) and x.func.attr == completion.name for x in ast.walk(arg.body))
+                elif isinstance(arg, ast.Name) and arg.id in g_.children:
+                    reaches = any(isinstance(x, ast.Call) and isinstance(x.func, ast.Attribute) and x.func.attr == completion.name for x in ast.walk(g_.children[arg.id].node))
+            r.check(
+                reaches,
+                f'{g_.qname}:archive-continuation',
+                where(g_, c_),
+                f'the continuation handed to db.archive is (or calls) {completion.name if completion else "?"}',
+                f'{g_.qname} hands db.archive the continuation {norm(arg)[:60] if arg is not None else "<none>"}, which does not reach {completion.name if completion else "the completion step"}: '
+                'the machine leaves archiving when the thread returns, not when the back end has finished (the PostgreSQL archive returns right after spawning pg_dump)',
+            )
+
+
+def rule8(ctx, rep):
+    """added after seeded change C10-11: the "this submission already failed" latch was deleted from fe/api/submit.Process
+    as dead code; step_3 is still reached from the compliance process when it ends cleanly - after a git step of the same
+    submission failed and failure() had already taken the machine back to running - and fired running_trigger() into an
+    archive / update cycle that was outstanding by then"""
+    prog = ctx.prog
+    with rep.rule(
+        'R-C10-8',
+        'a submission that has failed fires nothing more: in each submit front end, failure() sets a latch and every other step that fires running_trigger() is dominated by the test that the latch is not set',
+        floor=2,
+        breaks='a late continuation of a failed submission (the compliance process ending cleanly) pulls the machine to running out of whatever state it is in by then: an outstanding archive or update never completes',
+    ) as r:
+        from . import shared
+
+        for cq in ('dawgie.fe.api.submit.Process', 'dawgie.fe.submit.Process'):
+            c = prog.classes.get(cq)
+            if c is None:
+                continue
+            fail = c.methods.get('failure')
+            r.instance()
+            key = f'{cq}:failure-latch'
+            if fail is None:
+                r.fail(key, f'{c.module.relpath}:{c.node.lineno}', f'{cq} has no failure() step')
+                continue
+            rep.analysed(fail)
+            latches = {t.attr for a in fail.own_nodes() if isinstance(a, ast.Assign) and isinstance(a.value, ast.Constant) and a.value.value is True for t in a.targets
+                       if isinstance(t, ast.Attribute) and isinstance(t.value, ast.Name) and t.value.id == 'self'}
+            fires = any(isinstance(x.func, ast.Attribute) and x.func.attr.endswith('_trigger') for x in fail.calls())
+            if not fires:
+                r.ok(key, 'failure() fires no trigger: nothing to latch', where(fail), nontrivial=False)
+                continue
+            if not r.check(bool(latches), key, where(fail), f'failure() sets {sorted(latches)}', f'{fail.qname} fires a trigger but sets no latch: later steps of the same submission cannot know that it failed'):
+                continue
+            for name, m in sorted(c.methods.items()):
+                if m is fail:
+                    continue
+                g = prog.nfunc(m.qname)
+                for call in g.calls():
+                    if not (isinstance(call.func, ast.Attribute) and call.func.attr == 'running_trigger'):
+                        continue
+                    r.instance()
+                    guarded = False
+                    for t, outcome in shared.path_condition(g, call):
+                        e, neg = t, False
+                        while isinstance(e, ast.UnaryOp) and isinstance(e.op, ast.Not):
+                            e, neg = e.operand, not neg
+                        if isinstance(e, ast.Attribute) and isinstance(e.value, ast.Name) and e.value.id == 'self' and e.attr in latches:
+                            # reached with: (latch xor neg) == outcome  ->  latch == (outcome xor neg); must be False
+                            if (outcome != neg) is False:
+                                guarded = True
+                    r.check(
+                        guarded,
+                        f'{m.qname}:running_trigger:latched',
+                        where(g, call),
+                        f'running_trigger() only when {sorted(latches)} is not set',
+                        f'{m.qname} fires running_trigger() without having tested the failure latch {sorted(latches)}: after failure() returned the machine to running, this late step fires again from whatever state the machine is in',
+                    )
 
 
 def check(ctx):
@@ -866,6 +962,7 @@ def check(ctx):
     rule7(ctx, rep, M)
     rule5(ctx, rep)
     rule6(ctx, rep)
+    rule8(ctx, rep)
     return rep
 
 
@@ -877,6 +974,10 @@ VARIANTS = [
     V('save_prior_state records before it refuses', 'B', 'pl/state.py', 'FSM.save_prior_state', 'self.transitioning = Status.exiting\n        self.__prior = self.state', 'self.__prior = self.state\n        self.transitioning = Status.exiting', 'R-C10-7'),
     V('run edge out of archiving guarded too', 'N', 'pl/state.dot', None, 'source=archiving,\n                             dest=running];', 'source=archiving,\n                             dest=running,\n                             before=step_is_done];', None),
     V('failed pg_dump never reports the archive as finished', 'B', 'db/post/__init__.py', 'ArchiveHandler.processEnded', 'pass\n\n        self.__done()', 'pass\n        else:\n            self.__done()', 'R-C10-6'),
+    V('db.archive gets a continuation that only logs', 'B', 'pl/state.py', 'FSM._archive', 'dawgie.db.archive(self._archive_done)', "dawgie.db.archive(lambda: log.info('exiting state archive'))\n        self._archive_done()", 'R-C10-6'),
+    V('db.archive gets a lambda around the completion', 'N', 'pl/state.py', 'FSM._archive', 'dawgie.db.archive(self._archive_done)', 'dawgie.db.archive(lambda: self._archive_done())', None),
+    V('step_3 of the api front end ignores the failure latch', 'B', 'fe/api/submit.py', 'Process.step_3', 'if self.__failed:\n            return None\n        dawgie.context.fsm.running_trigger()', 'dawgie.context.fsm.running_trigger()', 'R-C10-8'),
+    V('step_3 tests the latch as a guard on the trigger', 'N', 'fe/api/submit.py', 'Process.step_3', 'if self.__failed:\n            return None\n        dawgie.context.fsm.running_trigger()', 'if not self.__failed:\n            dawgie.context.fsm.running_trigger()\n        else:\n            return None', None),
     V('shelve archive forgets the continuation', 'B', 'db/shelve/__init__.py', 'archive', 'done()', 'pass', 'R-C10-6'),
     V('extra edge loading->running', 'B', 'pl/state.dot', None, 'contemplation -> running[label=run,', 'loading -> running[label=skip, trigger=running_trigger, source=loading, dest=running];\n        contemplation -> running[label=run,', 'R-C10-1'),
     V('save_prior_state dropped from idle archive', 'B', 'pl/state.dot', None, 'after=archive,\n                             before=save_prior_state,', 'after=archive,', 'R-C10-1'),
